@@ -518,3 +518,31 @@ class RangeRoiMP(MethodPair):
 
 
 CONTRACTS.append(RangeRoiMP())
+
+
+class Roi3dMP(MethodPair):
+    cls, fields = 'RoiSubsetState3d', ('xatt', 'yatt', 'zatt', 'roi', 'pretransform')
+
+    def globals_(self, cfg, st):
+        # the loader names the class explicitly instead of using cls
+        return {'RoiSubsetState3d': getattr(st, 'ctor', None)}
+
+    def expect(self, cfg, st, a, k, f):
+        vals = list(a) + [k[x] for x in ('xatt', 'yatt', 'zatt', 'roi', 'pretransform')[len(a):] if x in k]
+        return [('three-attributes-roi-and-pretransform-as-saved', len(vals) == 5 and all(v is f[x] for v, x in zip(vals, self.fields)))]
+
+
+class ElementMP(MethodPair):
+    cls = 'ElementSubsetState'
+
+    def make_object(self, cfg):
+        return PObj(self.cls, fields={'_indices': val('indices'), '_data_uuid': 'uuid-of-the-dataset'})
+
+    def expect(self, cfg, st, a, k, f):
+        r = st.made[0]
+        return [('indices-as-saved', not a and set(k) == {'indices'} and k['indices'] is f['_indices']),
+                ('dataset-uuid-carried-over', r.fields.get('_data_uuid') == f['_data_uuid'])]
+
+
+for c in (Roi3dMP(), ElementMP()):
+    CONTRACTS.append(c)
